@@ -44,7 +44,12 @@ func (a *Agents) B(id int) *Browser {
 func key(b, f int) string { return fmt.Sprintf("%d/%d", b, f) }
 
 func (a *Agents) hdrFor(b *Browser, f *FilterRT) {
-	// chain selection headers
+	// chain selection headers: a request to one application does not carry the tenant header of another
+	for _, o := range a.w.Filters {
+		if m := o.Spec.Match; m != nil && !strings.HasPrefix(m.Header, ":") {
+			delete(b.Hdr, strings.ToLower(m.Header))
+		}
+	}
 	if m := f.Spec.Match; m != nil && !strings.HasPrefix(m.Header, ":") {
 		v := m.Equality
 		if v == "" {
